@@ -349,6 +349,77 @@ theorem C07_assoc_precedes_owner {P : Prims} (hP : Quiet P) (dd : DDesc) (e : El
 
 example : ∃ s : St, s.regs.assocStack ≠ [] := ⟨{ regs := { assocStack := [4] } }, by simp⟩
 
+/-! ### the operators themselves (what the specification reads off the items) -/
+
+/-- `22X000` / `232000`: the boundary is the position of the operator's OWN item (candidates are the
+    plain items strictly in front of it), the definition state machine is armed, one constant item
+    is recorded, links and selection are untouched. -/
+theorem C07_operator_marks_boundary {P : Prims} (hP : Quiet P) (id : Nat) (s s' : St)
+    (hid : id = 222000 ∨ id = 223000 ∨ id = 224000 ∨ id = 225000 ∨ id = 232000)
+    (h : operatorDescriptor P id s = .ok s') :
+    s'.descs = .oper id :: s.descs ∧ s'.regs.backBoundary = s.descs.length ∧
+    s'.regs.bitmapDef = .indicator ∧ s'.links = s.links ∧ s'.regs.bmIter = s.regs.bmIter ∧
+    s'.regs.backRefs = s.regs.backRefs ∧ (s'.regs.qa = .waiting ↔ (id = 222000 ∨ s.regs.qa = .waiting)) := by
+  have key : ∀ (c : Nat) (hc : id / 1000 = c) (hy : id % 1000 = 0)
+      (h222 : c = 222 ∨ c = 223 ∨ c = 224 ∨ c = 225 ∨ c = 232),
+      operatorDescriptor P id s =
+        (P.constant (.oper id) 0 (s.setRegs fun r => { r with bitmapDef := .indicator, backBoundary := s.descs.length })
+          >>= fun s2 => pure (if c = 222 then s2.setRegs fun r => { r with qa := .waiting } else s2)) := by
+    intro c hc hy h222
+    unfold operatorDescriptor
+    simp only [hc, hy]
+    rcases h222 with rfl | rfl | rfl | rfl | rfl <;> simp
+  have hcy : ∃ c, id / 1000 = c ∧ id % 1000 = 0 ∧ (c = 222 ∨ c = 223 ∨ c = 224 ∨ c = 225 ∨ c = 232) ∧ (c = 222 ↔ id = 222000) := by
+    rcases hid with rfl | rfl | rfl | rfl | rfl <;> exact ⟨_, rfl, rfl, by decide, by decide⟩
+  obtain ⟨c, hc, hy, h222, hiff⟩ := hcy
+  rw [key c hc hy h222] at h
+  cases hk : P.constant (.oper id) 0 (s.setRegs fun r => { r with bitmapDef := .indicator, backBoundary := s.descs.length }) with
+  | error e => simp [hk, bind, Except.bind] at h
+  | ok s2 =>
+    simp only [hk, bind, Except.bind, pure, Except.pure] at h
+    injection h with h
+    have q := hP.constant _ _ _ _ hk
+    by_cases h2 : c = 222
+    · rw [if_pos h2] at h; subst h
+      refine ⟨q.1, by simp [St.setRegs, q.2.2], by simp [St.setRegs, q.2.2], q.2.1, by simp [St.setRegs, q.2.2], by simp [St.setRegs, q.2.2], ?_⟩
+      simp [St.setRegs, hiff.1 h2]
+    · rw [if_neg h2] at h; subst h
+      refine ⟨q.1, by simp [St.setRegs, q.2.2], by simp [St.setRegs, q.2.2], q.2.1, by simp [St.setRegs, q.2.2], by simp [St.setRegs, q.2.2], ?_⟩
+      have : id ≠ 222000 := fun hh => h2 (hiff.2 hh)
+      simp [St.setRegs, q.2.2, this]
+
+/-- `235000` records NO item: it forgets the back references and the recallable selection and
+    leaves the running iterator, the links and the items alone (this is why `Spec.links` needs the
+    times of the 235000s as a second input). -/
+theorem C07_cancel_back_references (P : Prims) (s : St) :
+    ∃ s', operatorDescriptor P 235000 s = .ok s' ∧ s'.descs = s.descs ∧ s'.links = s.links ∧
+      s'.regs.backRefs = none ∧ s'.regs.bitmapped = none ∧ s'.regs.bmIter = s.regs.bmIter ∧ s'.vals = s.vals :=
+  ⟨s.setRegs fun r => { r with backRefs := none, bitmapped := none }, by simp [operatorDescriptor], rfl, rfl, rfl, rfl, rfl, rfl⟩
+
+/-- `237000` restarts the iterator on the most recently built selection (whether or not 236000
+    introduced it) and records one constant item; with no selection it is a non-library error. -/
+theorem C07_recall_restarts {P : Prims} (hP : Quiet P) (s s' : St) (h : operatorDescriptor P 237000 s = .ok s') :
+    ∃ sel, s.regs.bitmapped = some sel ∧ s'.regs.bmIter = some sel ∧ s'.descs = .oper 237000 :: s.descs ∧
+      s'.links = s.links ∧ s'.regs.bitmapped = some sel := by
+  cases hb : s.regs.bitmapped with
+  | none => simp [operatorDescriptor, hb] at h
+  | some sel =>
+    have e : operatorDescriptor P 237000 s =
+        P.constant (.oper 237000) 0 (s.setRegs fun r => { r with bmIter := some sel }) := by
+      simp [operatorDescriptor, hb]
+    rw [e] at h
+    have q := hP.constant _ _ _ _ h
+    exact ⟨sel, rfl, by simp [q.2.2, St.setRegs], q.1, q.2.1, by simp [q.2.2, St.setRegs, hb]⟩
+
+/-- `236000` and `237255` only record a constant item (the registers they write in the code are never read) -/
+theorem C07_reuse_marks_are_inert {P : Prims} (hP : Quiet P) (id : Nat) (hid : id = 236000 ∨ id = 237255) (s s' : St)
+    (h : operatorDescriptor P id s = .ok s') :
+    s'.descs = .oper id :: s.descs ∧ s'.links = s.links ∧ s'.regs = s.regs := by
+  have e : operatorDescriptor P id s = P.constant (.oper id) 0 s := by
+    rcases hid with rfl | rfl <;> simp [operatorDescriptor]
+  rw [e] at h
+  exact hP.constant _ _ _ _ h
+
 /-
   (d) NOT PROVED — the headline, kept as the statement to aim for:
 
